@@ -182,9 +182,18 @@ NoRelax == {}
 RelaxRaw == {"sh-others-across-barrier"}
 RelaxWar == {"sh-write-after-readers"}
 RelaxEx  == {"ex-after-set"}
+DWrapsQ(c) == {"none"}
+\* quick tier: one head per class and the first few statements of the D menus
+DHeadsQ(c) ==
+  CASE c \in {"shared", "excl"} -> {h \in DHeads(c) : h.O = <<1>>}
+    [] c \in {"basic", "atomic"} -> {h \in DHeads(c) : h.O = <<2>>}
+    [] OTHER -> DHeads(c)
+DClassesQ == {"basic", "excl", "shared", "atomic", "tile"}
 DPlansQ(c) ==
   CASE c = "shared" -> {<< <<1, 1>> >>, << <<1, 1, 1>> >>}
     [] c = "mixed"  -> {<< <<2, 1, 1>> >>}
-    [] c = "excl"   -> {<< <<2, 1>> >>, << <<1, 1, 1>> >>}
+    [] c = "excl"   -> {<< <<2, 1>> >>}
+    [] c = "basic"  -> {<< <<2>> >>, << <<1>>, <<1>> >>}
+    [] c = "atomic" -> {<< <<2>> >>, << <<1>>, <<1>> >>}
     [] OTHER        -> DPlans(c)
 =============================================================================
